@@ -2,7 +2,8 @@
    Statements only.  [run P ops empty_state] is the state after any finite sequence of API calls
    (create, add, remove, every reference edit, set(Id), getSilent, lookup), executed to the end
    whether or not individual calls throw; P are the plans regenerated from src/document.cpp. *)
-From Adm Require Import Heap.Exec gen.PlansGen Heap.PlanChecks Heap.Frame Heap.Acyclic.
+From Adm Require Import Heap.Exec gen.PlansGen Heap.PlanChecks Heap.Frame Heap.Acyclic Heap.More Heap.WF Heap.WFExt Heap.Joint
+  Heap.Fuel Heap.Terminate.
 
 Theorem C06_plans_recognised : plans_problems = [] /\ add_plan_complete gen_plans = true /\ plans_typed gen_plans = true.
 Proof. exact (conj plans_recognised (conj gen_add_plan_complete gen_plans_typed)). Qed.
@@ -40,3 +41,44 @@ Theorem C06_guard_sound : forall fuel s rk from target,
   reaches fuel s rk from target = Some false -> ~ reach s rk from target.
 Proof. exact reaches_false_sound. Qed.
 Print Assumptions C06_guard_sound.
+
+(* "recursive add terminates": the model's Document::add recurses on fuel (|elements| + 2) and would return OutOfFuel
+   if that ran out; it never does, from any state in which no track format names a track format as its stream format
+   (which the C++ types guarantee and well-formedness implies) *)
+Theorem C06_recursive_add_never_runs_out_of_fuel : forall d h s s' r, StreamTyped s ->
+  doc_add_top gen_plans d h s = (s', r) -> r <> inr OutOfFuel.
+Proof. exact (doc_add_top_never_out_of_fuel gen_plans). Qed.
+Print Assumptions C06_recursive_add_never_runs_out_of_fuel.
+
+Theorem C06_recursive_add_terminates_in_reached_states : forall ops s, xrun_succ gen_plans ops empty_state = Some s ->
+  forall d h s' r, doc_add_top gen_plans d h s = (s', r) -> r <> inr OutOfFuel.
+Proof.
+  exact (fun ops s H d h s' r =>
+    doc_add_top_never_out_of_fuel gen_plans d h s s' r
+      (RefsOk_typed s (proj2 (proj1 (joint_invariant gen_plans gen_add_plan_complete gen_remove_plan_complete gen_plans_typed eq_refl
+                                       ops empty_state s empty_G H))))).
+Qed.
+Print Assumptions C06_recursive_add_terminates_in_reached_states.
+
+(* copies included: the guarded graphs are acyclic after every history of successful calls of the extended call set
+   (block additions, copy(), Document::deepCopy, deepCopyTo, reassignIds, updateBlockFormatDurations, tracing) *)
+Theorem C06_acyclic_all_calls : forall ops s rk, xrun_succ gen_plans ops empty_state = Some s -> guarded rk = true ->
+  acyclic s rk.
+Proof.
+  exact (fun ops s rk H Hg =>
+    proj2 (acy_invariant gen_plans gen_add_plan_complete gen_remove_plan_complete gen_plans_typed eq_refl
+             ops empty_state s empty_G empty_Acy H) rk Hg).
+Qed.
+Print Assumptions C06_acyclic_all_calls.
+
+(* "route tracing terminates on every reachable document": the tracer's fuel (|elements| + 2) is never exhausted *)
+Theorem C06_route_tracing_terminates_in_reached_states : forall ops s p, xrun_succ gen_plans ops empty_state = Some s ->
+  trace (fuel_of s) s p [] <> None.
+Proof.
+  exact (fun ops s p H =>
+    match acy_invariant gen_plans gen_add_plan_complete gen_remove_plan_complete gen_plans_typed eq_refl
+            ops empty_state s empty_G empty_Acy H with
+    | conj (conj (conj _ R) _) A => trace_terminates_on_acyclic s p R (A ObjObj eq_refl) (A PackPack eq_refl)
+    end).
+Qed.
+Print Assumptions C06_route_tracing_terminates_in_reached_states.
